@@ -1034,8 +1034,15 @@ rrul_fill_yly(echs_instant_t *restrict tgt, size_t nti, rrulsp_t rr)
 		}
 	}
 
-	y -= echs_shift_dvalue(rr->shift) > 0 ||
-		echs_shift_bday_p(rr->shift) && !echs_shift_neg_p(rr->shift);
+	if (tgt[GRP_CCH_OFF].y) {
+		/* we've been told the year the proto instant was generated
+		 * in, just carry on from there */
+		y = tgt[GRP_CCH_OFF].y;
+	} else if (echs_shift_dvalue(rr->shift) > 0 ||
+		   echs_shift_bday_p(rr->shift) && !echs_shift_neg_p(rr->shift)) {
+		/* start early but stay in step with INTERVAL */
+		y -= rr->inter;
+	}
 
 	/* fill up the array the hard way */
 	for (res = 0UL, tries = 64U; res < nti && --tries && y < MAX_YEAR; y += rr->inter) {
@@ -1214,15 +1221,21 @@ rrul_fill_mly(echs_instant_t *restrict tgt, size_t nti, rrulsp_t rr)
 			 : -(-bv / 5 * 7 + -bv % 5));
 
 		tmp = dv + bv * 7 / 5;
-		if (fwd > 0) {
+		if (tgt[GRP_CCH_OFF].y && tgt[GRP_CCH_OFF].m) {
+			/* we've been told the month the proto instant was
+			 * generated in, just carry on from there */
+			y = tgt[GRP_CCH_OFF].y;
+			m = tgt[GRP_CCH_OFF].m;
+		} else if (fwd > 0) {
 			/* start early, dates shifted forward may reach us,
-			 * be generous, months can be as short as 28 days */
-			m -= 1 + fwd / 28;
+			 * be generous, months can be as short as 28 days,
+			 * and stay in step with INTERVAL */
+			m -= (fwd / 28 + rr->inter) / rr->inter * rr->inter;
 		} else if (tmp < -62) {
 			/* start late, dates shifted backward can't reach us,
-			 * be conservative, months have up to 31 days and the
-			 * held-back occurrence of a refill is shifted already */
-			m += -tmp / 31 - 1;
+			 * be conservative, months have up to 31 days,
+			 * and stay in step with INTERVAL */
+			m += (-tmp / 31 - 1) / rr->inter * rr->inter;
 		}
 		while (m <= 0) {
 			m += 12;
